@@ -17,32 +17,7 @@ class C02(ParserSessionProp):
             '3*10^5 entries).  Oracle re-derives every node with fresh grammar calls.  Distinct = canonical tree '
             'digest + context; non-trivial = tree has at least one binary node.')
 
-    def generate(self, seed, index, tier, options):
-        if not (index % (150 if tier == 'thorough' else 400) == 77):
-            return super().generate(seed, index, tier, options)
-        # capacity stress run: one seven-word sentence under an "explosive" grammar drives the category table
-        # and the rule cache of a single call past 3*10^5 entries (ordinary runs stay below a few hundred)
-        from depsim import gen
-        rng = gen.stream(seed, 'C02:stress', index)
-        nprng = gen.np_stream(rng)
-        sentences = []
-        for sid, n in enumerate([7, 2]):
-            tag, dep = gen.make_scores(nprng, rng, n, 4, 'continuous')
-            if n > 2:
-                # a very improbable root attachment: every complete parse has a low priority, so the search
-                # visits almost the whole space (and fills the cache) before it pops its first goal item
-                dep[:, 0] = -50.0
-            sentences.append({'words': [f's{sid}x{i}' for i in range(n)], 'tag': gen.arr_to_hex(tag),
-                              'dep': gen.arr_to_hex(dep), 'style': 'continuous', 'rich': False, 'favoured': None})
-        modulus = 3000
-        wspec = {'family': 'stress',
-                 'grammar': {'kind': 'explosive', 'modulus': modulus, 'salt': rng.getrandbits(20),
-                             'categories': ['A', 'B', 'C', 'D'], 'roots': [f'H{k}' for k in range(modulus)], 'lang': 'en'},
-                 'sentences': sentences}
-        op = {'op': 'call', 'batch': [0, 1, 0], 'processes': 1, 'max_chunk_size': 20, 'unary_penalty': 0.1,
-              'beta': 1e-5, 'use_beta': False, 'pruning_size': 4, 'nbest': 1, 'max_step': 3000000, 'max_length': 250}
-        return {'prop': self.id, 'seed': seed, 'index': index, 'world': wspec, 'ops': [op],
-                'knobs': {'family': 'stress', 'fault_class': 'none', 'nbest': 1}, 'executor': 'inprocess'}
+    stress_every = {'quick': 400, 'thorough': 150}
 
     def check_call(self, world, op, rec, stats, spec):
         if spec['world'].get('family') == 'stress':
